@@ -1,3 +1,4 @@
+import MaestroVerif.Lemmas.ConductorLemmas
 import MaestroVerif.Model.Expand
 
 /-!
@@ -22,5 +23,16 @@ has a restart command (the limits are part of "identical … limits") -/
 theorem C18_limits (spec : Spec) (st : Step) :
     (if st.restart.isEmpty then 0 else spec.rlimit) = (if st.restart = [] then 0 else spec.rlimit) := by
   cases st.restart <;> simp
+
+/-- **the snapshot and the status table are rewritten after every poll, from the state that poll
+left** (`Model/Conductor.lean`): whenever `execute_ready_steps` returns, the loop pickles the graph
+and writes `status.csv`, in that order, before it sleeps or returns - so what a later conductor or
+`maestro status` reads is the live state -/
+theorem C18_snapshot_after_every_poll (cfg : Exec.Cfg) (s : Conductor.CS) (it : Conductor.Iter)
+    (v : Gen.StudyStatus) (h : (Conductor.iter cfg s it).2 = .status v) :
+    (Conductor.iter cfg s it).1.saved = some (Conductor.iter cfg s it).1.g ∧
+    ∃ pre, (Conductor.iter cfg s it).1.trace = s.trace ++ pre ++ [.poll, .pickle, .writeStatus] ++
+      (if v == .RUNNING then [.sleep] else []) :=
+  Conductor.snapshot_after_every_poll cfg s it v h
 
 end MaestroVerif.C18
